@@ -6,7 +6,7 @@ import time
 from . import build
 
 FAMS = ["fam_core", "fam_exec", "fam_when", "fam_wait", "fam_shared", "fam_wg"]
-TARGETS = [(f, v) for f in FAMS for v in ("fib-asan", "thr-tsan", "thr-asan")] + [("fam_stdlocks", "fib-asan")]
+TARGETS = [(f, v) for f in FAMS for v in ("fib-asan", "thr-tsan", "thr-asan")] + [("fam_stdlocks", "fib-asan"), ("fam_atomdiff", "fib-asan"), ("fam_atomdiff", "thr-asan")]
 
 
 def main():
